@@ -130,6 +130,52 @@ FIRST_MISSED = {
              'instruction object serves them all); C17 got values that are ill-formed in ALL cases',
     'c18-w': 'extreme structures `self-ref-*`: definitions that refer to the symbol they define, every type x phase',
     'c19-v': 'part F: timeout histories around a FAILING step - [cleanup] runs under the timeout in force at the failure',
+    # round 9 (letters x-z, third session): three changes per property - a state of the file system or the environment /
+    # a rarely used mode or combination of features / a boundary of size, count, order or encoding
+    'c01-x': 'NOT ANSWERED in this session: result/exit-code made unwritable by the action itself, so that storing the '
+             'outcome raises outside the guarded step (cleanup skipped, sandbox left); needs a D1 case of C04/C01 whose '
+             'action plants a directory at result/exit-code',
+    'c01-y': 'outside the reach of the stub executor runs (command-line reporter of --act); the same change is c02-y and is '
+             'caught by C02',
+    'c01-z': 'a defect of reading the test-case file (instructions after `including` dropped): caught by C07',
+    'c02-x': 'every third case is started from a directory that is not an ancestor of the (absolute) case file',
+    'c03-x': 'spellings `dangling_link`: names that exist in the home directory only as dangling symbolic links',
+    'c03-z': 'caught by C08 (typed references in every context); C03 itself was not extended for it',
+    'c04-y': 'part `minimal` (d=3): minimal cases x --keep x --preprocessor x start directory elsewhere',
+    'c04-z': 'part `minimal`: cases with nothing to execute in any phase still use (and --keep reports) a sandbox',
+    'c06-x': 'meaning of file-matcher primitives on symbolic links: caught by C15',
+    'c06-y': 'NOT ANSWERED in this session: `-with-pruned FM A && B` (precedence after a primitive that takes a '
+             'files-matcher argument); needs that primitive in the generated files-matcher trees of C06 / C15',
+    'c07-x': 'shapes `include_symlink_loop*`, `include_dangling_link`',
+    'c07-y': 'the act-merge comparison was made exact per line (two glued shell lines had produced the same words)',
+    'c08-y': '--act skipping the validation of the skipped phases: the same change is c03-y, caught by C03',
+    'c09-x': 'NOT ANSWERED in this session: the case directory reached through a symbolic link / `..` and EXACTLY_HOME '
+             'substituted in a string (value of a builtin symbol, not tokenisation)',
+    'c09-y': 'NOT ANSWERED in this session: `:>` / -existing-* arguments on the act line of the file-interpreter actor',
+    'c10-z': 'shell words whose value ends in white space (the line ends with an escaped space / tab)',
+    'c11-x': 'NOT ANSWERED in this session: `cd link/..` where link is a symbolic link to a directory (needs symbolic '
+             'links in the cd vocabulary and in the reference state machine)',
+    'c11-y': 'every third case gives the action a transformation of its output (same process, same environment)',
+    'c11-z': 'NOT ANSWERED in this session: an environment set that has become EMPTY (needs Exactly started with a '
+             'minimal environment and every variable unset)',
+    'c12-x': 'NOT ANSWERED in this session: -rel-here in a suite file named by a relative path with a directory part',
+    'c12-y': 'NOT ANSWERED in this session: -rel-here in a file included two levels deep through a sub directory',
+    'c13-x': 'NOT ANSWERED in this session: a source that answers differently on its second reading (the transformer '
+             'must freeze it); needs a program-driven line matcher upstream of a multi-range `-line-nums`',
+    'c14-x': 'kind `special-file`: procfs files (size reported as 0, characters when read) through nine consumers x two '
+             'buffer sizes',
+    'c15-x': 'literal cases: names longer than the file system accepts, in appended and in creating lists',
+    'c15-y': 'literal cases: populations that fail at run time in [before-assert], [assert] and [cleanup]',
+    'c16-x': 'symbolic links that lie beside their target (file, default suite file, via a glob): only the double '
+             'inclusion itself can make the run invalid - the earlier link cases were invalid for a second reason too',
+    'c16-z': 'one glob whose matches hold a directory and that directory\'s own exactly.suite',
+    'c17-y': 'NOT ANSWERED in this session: `exactly suite --actor CMD` versus `exactly --actor CMD --suite`',
+    'c18-x': 'a reporter crash for unsuccessful cases outside the tree of the root suite: caught by C16 (such trees added)',
+    'c18-y': 'a JUnit reporter crash for cases that are not executed: caught by C16',
+    'c19-x': 'NOT ANSWERED in this session: the rendering of a -rel-cd program path after a timeout when the current '
+             'directory lies outside the sandbox',
+    'c19-y': 'places `exists-negated:file-matcher-run`, `contents-negated:text-matcher-run`',
+    'c20-x': 'kind `width`: 13 pages x 9 states of COLUMNS / LINES in the environment',
 }
 
 
